@@ -312,6 +312,9 @@ def run(ctx):
                                      and c['opt']['top'] == 'value')))
     bad['expect']['es'] = bad['expect']['es'] + [{'t': 'str', 's': 'zz'}]
     ctx.selftest(run_case((bad, 1)) is not None, 'replay accepted a corrupted expected value')
+    # growth item: navigation over cleaned trees (DRIFT only, see drivers/treenav.py)
+    from drivers import treenav
+    treenav.run(ctx)
     ctx.traces = len(jobs)
     ctx.exhaustive = False
     ctx.extra['cases'] = len(cases)
